@@ -3,6 +3,7 @@ import Driver.Util
 import Driver.C15
 import Driver.Store
 import Driver.C19
+import Driver.Table
 /-! Line-protocol driver. Usage: `drv <property>`; stdin: `op args… | impl-output`;
     stdout: one `MISMATCH`/`MONITOR` line per problem and a final `DONE` summary with coverage tags. -/
 open Drv
@@ -81,6 +82,7 @@ def main (args : List String) : IO UInt32 := do
   | ["C15"] => finish (← loopStateless Drv.C15.step h {})
   | ["C19"] => finish (← loopStateless (Drv.C19.step true) h {})
   | ["C19", "ideal"] => finish (← loopStateless (Drv.C19.step false) h {})
+  | ["table", prop] => finish (← loopStateful (Drv.Table.step prop) h {} {})
   | ["inrange"] => finish (← loopStateless Drv.Store.inRangeStep h {})
   | ["store", prop] => finish (← loopStateful (Drv.Store.step prop) h {} {})
   | _ => IO.eprintln "usage: drv <property>"; return 2
